@@ -101,6 +101,9 @@ func FuncText(f *u.Func) string {
 	if f.Export {
 		s += " export"
 	}
+	if f.ErrCustom {
+		s += " errtype=CodedErr"
+	}
 	if f.LocPC != "" {
 		s += " locationOf=" + f.LocPC
 	}
